@@ -14,8 +14,19 @@ from .. import tlc
 from ..core import Outcome, Prop, Run, known_ids, write_replay
 
 
-def _matches(f: Dict[str, Any], ev: Dict[str, Any], vec: Dict[str, Any], what: str) -> bool:
+def _matches(f: Dict[str, Any], ev: Dict[str, Any], vec: Dict[str, Any], what: str, d: Dict[str, Any]) -> bool:
     m = f.get("match", {})
+    if m.get("only_null_duplicates") and d.get("has_nonnull_duplicates"):
+        return False
+    if m.get("needs_null") and not d.get("has_null"):
+        return False
+    if "physical_dtype" in m and d.get("physical_dtype") not in m["physical_dtype"]:
+        return False
+    if m.get("shipped_bad") and "ranks" in d:
+        # every drawn value is either correct or one the specification's shipped fold predicts
+        allowed = set(vec.get("gen") or []) | set(vec.get("shipped_bad") or []) | {-99}
+        if not set(d["ranks"]) <= allowed:
+            return False
     if "kind" in m and ev["kind"] not in m["kind"]:
         return False
     if "what" in m and not re.search(m["what"], what):
@@ -113,8 +124,11 @@ def strategies(run: Run, only: Dict[str, Any] | None = None) -> None:
                 if ev["outcome"].startswith(("strategy_error", "draw_error")):
                     key = "no-draw:" + ev["outcome"]
                     run.anomalies[key] = run.anomalies.get(key, 0) + 1
+        if os.environ.get("VF_DEBUG_DUMP"):
+            with open(os.environ["VF_DEBUG_DUMP"], "w") as fh:
+                json.dump([{"vec": v, "ev": {k: x for k, x in e.items() if k != "draws"}, "d": d, "what": w} for v, e, d, w in problems], fh)
         for vec, ev, d, what in problems:
-            hit = [fid for fid, f in known.items() if _matches(f, ev, vec, what)]
+            hit = [fid for fid, f in known.items() if _matches(f, ev, vec, what, d)]
             if hit:
                 run.known_hits[hit[0]] = run.known_hits.get(hit[0], 0) + 1
                 continue
